@@ -2011,7 +2011,7 @@ class SparseVector:
         other_size = other.size
         other_dct = other.dct
         if size == other_size:
-            for i, j in other_dct.items():
+            for i, j in tuple(other_dct.items()): # other may be self
                 if i in dct:
                     j = dct[i] - j
                     if j: dct[i] = j
